@@ -442,9 +442,9 @@ package lang
 //@   at call (lang/stdio.Io).Write#* modifies nothing
 //@   at call UnmarshalData#* modifies nothing
 //@   at call tMsg*#* modifies nothing
-//@   at call UnmarshalData#* assert arg1 == dt
-//@   at call (lang/stdio.Io).Write#* assert arg0 == b
-//@   ensures (result == TestPassed) == (called("(lang/stdio.Io).Write") && ret("(lang/stdio.Io).Write#1", 1) == nil && called("UnmarshalData") && ret("UnmarshalData#1", 1) == nil && (typeis(ret("UnmarshalData#1", 0), []string) || typeis(ret("UnmarshalData#1", 0), []any)))
+//@   at call UnmarshalData#1 assert arg1 == dt
+//@   at call (lang/stdio.Io).Write#1 assert arg0 == b
+//@   ensures (result == TestPassed) == (errǂ1 == nil && errǂ2 == nil && (typeis(v, []string) || typeis(v, []any)))
 //@ func testIsMap [C31]
 //@   check none
 //@   modifies nothing
@@ -453,9 +453,9 @@ package lang
 //@   at call (lang/stdio.Io).Write#* modifies nothing
 //@   at call UnmarshalData#* modifies nothing
 //@   at call tMsg*#* modifies nothing
-//@   at call UnmarshalData#* assert arg1 == dt
-//@   at call (lang/stdio.Io).Write#* assert arg0 == b
-//@   ensures imp(result == TestPassed, called("(lang/stdio.Io).Write") && ret("(lang/stdio.Io).Write#1", 1) == nil && called("UnmarshalData") && ret("UnmarshalData#1", 1) == nil)
+//@   at call UnmarshalData#1 assert arg1 == dt
+//@   at call (lang/stdio.Io).Write#1 assert arg0 == b
+//@   ensures imp(result == TestPassed, errǂ1 == nil && errǂ2 == nil)
 //@ func testIsGreaterThanOrEqualTo [C31]
 //@   check none
 //@   modifies nothing
@@ -464,13 +464,13 @@ package lang
 //@   at call (lang/stdio.Io).Write#* modifies nothing
 //@   at call UnmarshalData#* modifies nothing
 //@   at call tMsg*#* modifies nothing
-//@   at call UnmarshalData#* assert arg1 == dt
-//@   at call (lang/stdio.Io).Write#* assert arg0 == b
-//@   at return @"tMsgGtEqMatch(" assert result == TestPassed && l >= comparison
-//@   at return @"tMsgGtEqFail(" assert result == TestFailed && l < comparison
-//@   ensures imp(result == TestPassed, called("(lang/stdio.Io).Write") && ret("(lang/stdio.Io).Write#1", 1) == nil && called("UnmarshalData") && ret("UnmarshalData#1", 1) == nil && l >= comparison)
-//@   at return @"tMsgGtEqMatch(" assert imp(typeis(ret("UnmarshalData#1", 0), []string), l == len(unbox(ret("UnmarshalData#1", 0), []string))) && imp(typeis(ret("UnmarshalData#1", 0), []any), l == len(unbox(ret("UnmarshalData#1", 0), []any)))
-//@   at return @"tMsgGtEqFail(" assert imp(typeis(ret("UnmarshalData#1", 0), []string), l == len(unbox(ret("UnmarshalData#1", 0), []string))) && imp(typeis(ret("UnmarshalData#1", 0), []any), l == len(unbox(ret("UnmarshalData#1", 0), []any)))
+//@   at call UnmarshalData#1 assert arg1 == dt
+//@   at call (lang/stdio.Io).Write#1 assert arg0 == b
+//@   at return #4 assert result == TestPassed && l >= comparison
+//@   at return #5 assert result == TestFailed && l < comparison
+//@   ensures imp(result == TestPassed, errǂ1 == nil && errǂ2 == nil && l >= comparison)
+//@   at return #4 assert imp(typeis(v, []string), l == len(unbox(v, []string))) && imp(typeis(v, []any), l == len(unbox(v, []any)))
+//@   at return #5 assert imp(typeis(v, []string), l == len(unbox(v, []string))) && imp(typeis(v, []any), l == len(unbox(v, []any)))
 
 //@ func runTest$1 [C31]
 //@   check none
